@@ -249,9 +249,27 @@ func (Engine) Gen(seed uint64, idx int, tier string) interface{} {
 			break
 		}
 		fallthrough
-	case x < 5:
+	case x < 5 && r.Chance(1, 2):
 		sc.Src = gen.GenScope(simrt.NewRand(r.Uint64()), 2).Render()
 		sc.Name = "<scopegen>"
+	case x < 5:
+		rr := simrt.NewRand(r.Uint64())
+		switch r.Intn(3) {
+		case 0:
+			sc.Src = gen.GenIter(rr, nil).Render()
+		case 1:
+			sc.Src = gen.GenCont(rr, nil).Render()
+		default:
+			ip := gen.GenImport(rr, false)
+			sc.Src = ip.RenderMain()
+		}
+		// a window of the program keeps inputs small
+		lines := strings.SplitAfter(sc.Src, "\n")
+		if len(lines) > 60 {
+			st := r.Intn(len(lines) - 50)
+			sc.Src = strings.Join(lines[st:st+50], "")
+		}
+		sc.Name = "<othergen>"
 	case x < 7:
 		n := 1 + r.Intn(2)
 		for i := 0; i < n; i++ {
